@@ -18,6 +18,7 @@ ENCODED = [
     "tdgl.em:_biot_savart_2d_vector",
     "tdgl.em:biot_savart_2d",
     "tdgl.em:convert_field",
+    "tdgl.em:current_loop_vector_potential (geometry; elliptic integrals uninterpreted)",
     "tdgl.solution.solution:Solution.field_at_position",
     "tdgl.solution.solution:Solution.vector_potential_at_position",
     "tdgl.distance:cdist",
@@ -55,6 +56,11 @@ def patch_spec(case):
     spec["tdgl.em"].update(_biot_savart_2d_z=em._biot_savart_2d_z.py_func, _biot_savart_2d_vector=em._biot_savart_2d_vector.py_func)
     for nm in ("euclidean_distance_2d", "euclidean_distance_3d", "sqeuclidean_distance_2d", "sqeuclidean_distance_3d"):
         spec["tdgl.distance"][nm] = getattr(D, nm).py_func
+    if case.kind == "loop":
+        from symx import arr as A_
+
+        spec["tdgl.em"]["np"] = A_.NPFacade(extra=dict(arccos=_arccos, arctan2=_arctan2, sin=_sin, cos=_cos, zeros_like=_zeros_like))
+        spec["tdgl.em"]["special"] = _Special()
     return spec
 
 
@@ -66,6 +72,7 @@ def cases(tier, seed):
     for lu, cu in (("um", "uA"), ("um", "mA")) + ((("nm", "uA"),) if tier == "thorough" else ()):
         out.append(Case(f"solution:field_at_position:{lu}:{cu}", kind="sol_field", m=b["sources"], n=b["evaluation_points"], lu=lu, cu=cu, seed=seed))
         out.append(Case(f"solution:vector_potential_at_position:{lu}:{cu}", kind="sol_vecpot", m=b["sources"], n=b["evaluation_points"], lu=lu, cu=cu, seed=seed))
+    out.append(Case("current-loop:direction", kind="loop", n=b["evaluation_points"], seed=seed))
     out.append(Case("cdist", kind="cdist", seed=seed))
     out.append(Case("convert_field", kind="convert", seed=seed))
     return out
@@ -271,6 +278,102 @@ def body_sol_vecpot(H, case):
             H.prove_eq(f"applied part [{i},{c}] is the applied vector potential", K.at(parts["applied"], i, c), K.at(Aapp, i, c), scale=1e-30)
             H.prove_eq(f"total vector potential [{i},{c}] = applied + supercurrent + normal-current parts", K.at(total, i, c),
                        K.at(parts["applied"], i, c) + K.at(parts["supercurrent_density"], i, c) + K.at(parts["normal_current_density"], i, c), scale=1e-30)
+
+
+# ---- angles and elliptic integrals for the current-loop potential (symbolic runs) --------------------------------
+class _Angles:
+    """an array of angles known only through (cos, sin); supports `+ pi/2` (a quarter turn)"""
+
+    def __init__(self, c, s_):
+        self.c, self.s = c, s_
+        self.shape = np.shape(c.data)
+
+    def __add__(self, k):
+        if abs(float(k) - float(np.pi) / 2) > 1e-15:
+            raise core.Unsupported("angle shifted by something other than pi/2")
+        return _Angles(-self.s, self.c)
+
+
+def _arccos(c):
+    from symx import arr as A_
+
+    c = A_.asarray(c)
+    return _Angles(c, A_.sqrt(1 - c * c))  # polar angle in [0, pi]: its sine is non-negative
+
+
+def _arctan2(y, x):
+    from symx import arr as A_
+
+    y, x = A_.asarray(y), A_.asarray(x)
+    rho = A_.sqrt(x * x + y * y)
+    return _Angles(x / rho, y / rho)
+
+
+def _sin(a):
+    if not isinstance(a, _Angles):
+        raise core.Unsupported("sin of a symbolic number")
+    return a.s
+
+
+def _cos(a):
+    if not isinstance(a, _Angles):
+        raise core.Unsupported("cos of a symbolic number")
+    return a.c
+
+
+def _zeros_like(a, **k):
+    from symx import arr as A_
+
+    return A_.zeros(a.shape, float) if isinstance(a, _Angles) else A_.zeros_like(a, **k)
+
+
+class _Special:
+    """scipy.special.ellipk / ellipe: uninterpreted functions of the parameter m (no SMT theory for them)"""
+
+    @staticmethod
+    def ellipk(m):
+        from symx.arr import SA
+
+        return SA(np.array([core.opaque_fn("ellipk", v) for v in m.data.ravel()] + [None], dtype=object)[:-1])
+
+    @staticmethod
+    def ellipe(m):
+        from symx.arr import SA
+
+        return SA(np.array([core.opaque_fn("ellipe", v) for v in m.data.ravel()] + [None], dtype=object)[:-1])
+
+
+def body_loop(H, case):
+    """closed-form vector potential of a current loop: the elliptic-integral magnitude is uninterpreted, but the
+    geometry around it is decided: A_z = 0, A is azimuthal about the *loop axis* (perpendicular to the in-plane
+    radius vector from the loop centre), and the result only depends on positions relative to the loop centre"""
+    from tdgl.em import current_loop_vector_potential
+
+    n = case.n
+    c = [H.real("cx", lo=-3.0, hi=3.0), H.real("cy", lo=-3.0, hi=3.0), H.real("cz", lo=-1.0, hi=1.0)]
+    # evaluation points off the loop axis and off the loop plane
+    P = H.array2([[c[0] + H.real(f"rx{i}", lo=0.3, hi=2.0) * (1 if i % 2 == 0 else -1), c[1] + H.real(f"ry{i}", lo=0.3, hi=2.0), c[2] + H.real(f"rz{i}", lo=0.3, hi=2.0)] for i in range(n)])
+    a, cur = H.real("radius", lo=0.5, hi=2.0), H.real("current", lo=0.5, hi=5.0)
+    d = [H.real("shift_x", lo=-5.0, hi=5.0), H.real("shift_y", lo=-5.0, hi=5.0), H.real("shift_z", lo=-5.0, hi=5.0)]
+    centre = H.array(c) if H.mode == "sym" else np.array(c)
+    A = current_loop_vector_potential(P, loop_center=centre, loop_radius=a, current=cur).magnitude
+    P2 = H.array2([[K.at(P, i, k) + d[k] for k in range(3)] for i in range(n)])
+    centre2 = H.array([c[k] + d[k] for k in range(3)]) if H.mode == "sym" else np.array([c[k] + d[k] for k in range(3)])
+    A2 = current_loop_vector_potential(P2, loop_center=centre2, loop_radius=a, current=cur).magnitude
+    for i in range(n):
+        ax, ay, az = K.at(A, i, 0), K.at(A, i, 1), K.at(A, i, 2)
+        rx, ry = K.at(P, i, 0) - c[0], K.at(P, i, 1) - c[1]
+        H.prove_eq(f"point {i}: A_z = 0", az, 0.0, scale=1e-30)
+        if H.mode == "sym":
+            H.prove_eq(f"point {i}: A is perpendicular to the in-plane radius vector from the loop centre (azimuthal about the loop axis)", ax * rx + ay * ry, 0.0, timeout=60)
+        else:
+            H.prove(f"point {i}: A is perpendicular to the in-plane radius vector from the loop centre (azimuthal about the loop axis)",
+                    abs(ax * rx + ay * ry) <= 1e-9 * (abs(ax) + abs(ay)) * (abs(rx) + abs(ry)))
+        for k, nm in enumerate("xyz"):
+            if H.mode == "sym":
+                H.prove_eq(f"point {i}: A_{nm} is unchanged when loop and point are shifted together", K.at(A2, i, k), K.at(A, i, k), timeout=60)
+            else:
+                H.prove(f"point {i}: A_{nm} is unchanged when loop and point are shifted together", abs(K.at(A2, i, k) - K.at(A, i, k)) <= 1e-7 * (abs(ax) + abs(ay)) + 1e-300)
 
 
 def body_cdist(H, case):
